@@ -422,6 +422,7 @@ func TestCheck(t *testing.T) {
 		schedrun.Run(r, t, schedrun.Spec{Name: name, Bound: runner.Pick(r, 3, -1), Shards: 8, Budget: runner.Pick(r, 20*time.Second, 4*time.Minute), MaxExecs: 300000,
 			Body: body, Oracle: oracle, VioKey: func(f *sched.Failure) string { return cls }})
 	}
+	mgmtSched(r, t, dir) // after_test.go: a replay against a concurrent management mutation
 	if after != nil {
 		after.wait()
 	}
